@@ -94,7 +94,13 @@ func genG05(repo string, w *Out) error {
 	if err := g05Dialvia(repo, w); err != nil {
 		return err
 	}
-	return g05Net(repo, w)
+	if err := g05Net(repo, w); err != nil {
+		return err
+	}
+	if err := g05Config(repo, w); err != nil {
+		return err
+	}
+	return g05Stdlib(w)
 }
 
 // ---------------------------------------------------------------- pac/proxy.go
